@@ -21,6 +21,11 @@ func (group *Group) startRecordFlvIfNeeded(nowUnix int64) {
 		return
 	}
 
+	if streamNameHasDotDotElement(group.streamName) {
+		Log.Errorf("[%s] record flv disabled for this stream, stream name would escape flv out path. streamName=%s", group.UniqueKey, group.streamName)
+		return
+	}
+
 	// 构造文件名
 	filename := fmt.Sprintf("%s-%d.flv", group.streamName, nowUnix)
 	filenameWithPath := filepath.Join(group.config.RecordConfig.FlvOutPath, filename)
